@@ -239,20 +239,25 @@ fn synth_elf(text_off: usize, text: &[u8], note: Option<&[u8]>, note_align: u64)
 
 /// a well-formed image of either class, with or without a program-header table (one PT_LOAD, one PT_NOTE over the note
 /// area) and with or without section headers; `lead` notes precede the GNU build-id note in the same note area
-fn synth_elf_gen(c64: bool, phdrs: bool, shdrs: bool, text: &[u8], lead: &[(&[u8], &[u8], u32)], id: Option<&[u8]>, align: usize) -> Vec<u8> {
+/// `split`: the notes before the build-id note get a PT_NOTE segment of their own, the build-id note a second one
+pub fn synth_elf_gen(c64: bool, phdrs: bool, shdrs: bool, split: bool, text: &[u8], lead: &[(&[u8], &[u8], u32)], id: Option<&[u8]>, align: usize) -> Vec<u8> {
     let ehsize = if c64 { 64 } else { 52 }; let phsize = if c64 { 56 } else { 32 }; let shsize = if c64 { 64 } else { 40 };
     let mut b = vec![0u8; ehsize];
     b[0..4].copy_from_slice(b"\x7fELF"); b[4] = if c64 { 2 } else { 1 }; b[5] = 1; b[6] = 1; b[16] = 3; b[18] = if c64 { 62 } else { 3 }; b[20] = 1;
-    let phoff = b.len(); if phdrs { b.resize(phoff + 2 * phsize, 0); }
+    let nph = if split { 3 } else { 2 };
+    let phoff = b.len(); if phdrs { b.resize(phoff + nph * phsize, 0); }
     while b.len() % 16 != 0 { b.push(0); }
     let toff = b.len(); b.extend_from_slice(text); while b.len() % 8 != 0 { b.push(0); }
     let noff = b.len();
-    let mut put_note = |b: &mut Vec<u8>, name: &[u8], desc: &[u8], ty: u32| {
+    let put_note = |b: &mut Vec<u8>, base: usize, name: &[u8], desc: &[u8], ty: u32| {
         b.extend_from_slice(&((name.len() + 1) as u32).to_le_bytes()); b.extend_from_slice(&(desc.len() as u32).to_le_bytes()); b.extend_from_slice(&ty.to_le_bytes());
-        b.extend_from_slice(name); b.push(0); while (b.len() - noff) % align != 0 { b.push(0); }
-        b.extend_from_slice(desc); while (b.len() - noff) % align != 0 { b.push(0); } };
-    for (n, d, t) in lead { put_note(&mut b, n, d, *t); }
-    if let Some(id) = id { put_note(&mut b, b"GNU", id, 3); }
+        b.extend_from_slice(name); b.push(0); while (b.len() - base) % align != 0 { b.push(0); }
+        b.extend_from_slice(desc); while (b.len() - base) % align != 0 { b.push(0); } };
+    for (n, d, t) in lead { put_note(&mut b, noff, n, d, *t); }
+    let lead_len = b.len() - noff;
+    if split { while b.len() % 8 != 0 { b.push(0); } }
+    let idoff = if split { b.len() } else { noff };
+    if let Some(id) = id { put_note(&mut b, idoff, b"GNU", id, 3); }
     let nlen = b.len() - noff; while b.len() % 8 != 0 { b.push(0); }
     let strtab = b"\0.text\0.note.gnu.build-id\0.shstrtab\0"; let soff = b.len(); b.extend_from_slice(strtab); while b.len() % 8 != 0 { b.push(0); }
     let shoff = b.len(); let mut shnum = 0u16;
@@ -271,12 +276,14 @@ fn synth_elf_gen(c64: bool, phdrs: bool, shdrs: bool, text: &[u8], lead: &[(&[u8
                      for k in [32, 40] { b[o + k..o + k + 8].copy_from_slice(&(size as u64).to_le_bytes()); } b[o + 48..o + 56].copy_from_slice(&al.to_le_bytes()); }
             else { for (k, v) in [(0, typ), (4, off as u32), (8, off as u32), (12, off as u32), (16, size as u32), (20, size as u32), (24, 5), (28, al as u32)] { b[o + k..o + k + 4].copy_from_slice(&v.to_le_bytes()); } } };
         let total = b.len();
-        ph(0, 1, 0, total, 4096, &mut b); ph(1, 4, noff, nlen, align as u64, &mut b);
+        ph(0, 1, 0, total, 4096, &mut b);
+        if split { ph(1, 4, noff, lead_len, align as u64, &mut b); ph(2, 4, idoff, noff + nlen - idoff, align as u64, &mut b); }
+        else { ph(1, 4, noff, nlen, align as u64, &mut b); }
     }
-    if c64 { if phdrs { b[32..40].copy_from_slice(&(phoff as u64).to_le_bytes()); b[54..56].copy_from_slice(&56u16.to_le_bytes()); b[56..58].copy_from_slice(&2u16.to_le_bytes()); }
+    if c64 { if phdrs { b[32..40].copy_from_slice(&(phoff as u64).to_le_bytes()); b[54..56].copy_from_slice(&56u16.to_le_bytes()); b[56..58].copy_from_slice(&(nph as u16).to_le_bytes()); }
              b[52..54].copy_from_slice(&64u16.to_le_bytes());
              if shdrs { b[40..48].copy_from_slice(&(shoff as u64).to_le_bytes()); b[58..60].copy_from_slice(&64u16.to_le_bytes()); b[60..62].copy_from_slice(&shnum.to_le_bytes()); b[62..64].copy_from_slice(&(shnum - 1).to_le_bytes()); } }
-    else { if phdrs { b[28..32].copy_from_slice(&(phoff as u32).to_le_bytes()); b[42..44].copy_from_slice(&32u16.to_le_bytes()); b[44..46].copy_from_slice(&2u16.to_le_bytes()); }
+    else { if phdrs { b[28..32].copy_from_slice(&(phoff as u32).to_le_bytes()); b[42..44].copy_from_slice(&32u16.to_le_bytes()); b[44..46].copy_from_slice(&(nph as u16).to_le_bytes()); }
            b[40..42].copy_from_slice(&52u16.to_le_bytes());
            if shdrs { b[32..36].copy_from_slice(&(shoff as u32).to_le_bytes()); b[46..48].copy_from_slice(&40u16.to_le_bytes()); b[48..50].copy_from_slice(&shnum.to_le_bytes()); b[50..52].copy_from_slice(&(shnum - 1).to_le_bytes()); } }
     b
@@ -306,16 +313,16 @@ pub fn run_synth(a: &Args) {
         if img.len() < 3000 { let mut l = Line::new("c14"); l.bytes(&img); out.case(l.s(), &got, true); out.count("synth.model_compared"); }
     }
     // both classes x program headers / section headers present or stripped x notes before the build-id note x note alignment
-    for c64 in [true, false] { for (phdrs, shdrs) in [(false, true), (true, true), (true, false)] { for notes in 0..4u8 { for align in [4usize, 8] {
+    for c64 in [true, false] { for (phdrs, shdrs, split) in [(false, true, false), (true, true, false), (true, false, false), (true, false, true), (true, true, true)] { for notes in 0..4u8 { for align in [4usize, 8] {
         let text: Vec<u8> = (0..100 + 37 * notes as usize).map(|_| rng.next() as u8).collect();
         let id: Vec<u8> = (0..if notes == 3 { 16 } else { 20 }).map(|_| rng.next() as u8).collect();
         let vendor: Vec<u8> = (0..8).map(|_| rng.next() as u8).collect();
         let lead: Vec<(&[u8], &[u8], u32)> = match notes { 2 => vec![(b"Go", &vendor[..4], 4)], 3 => vec![(b"XY", &vendor[..8], 1), (b"GNU", &vendor[..4], 1)], _ => vec![] };
         let has_id = notes > 0;
-        let img = synth_elf_gen(c64, phdrs, shdrs, &text, &lead, if has_id { Some(&id) } else { None }, align);
-        let mut l = Line::new("const"); l.b(c64).b(phdrs).b(shdrs).u(notes as u64).z(align);
+        let img = synth_elf_gen(c64, phdrs, shdrs, split, &text, &lead, if has_id { Some(&id) } else { None }, align);
+        let mut l = Line::new("const"); l.b(c64).b(phdrs).b(shdrs).b(split).u(notes as u64).z(align);
         if has_id { l.u(0).bytes(&id); } else if shdrs { let mut f = vec![0u8; 16]; for (i, x) in text.iter().take(4096).enumerate() { f[i % 16] ^= *x; } l.u(0).bytes(&f); } else { l.u(1); }
-        let mut r = Line::bare(); r.b(c64).b(phdrs).b(shdrs).u(notes as u64).z(align);
+        let mut r = Line::bare(); r.b(c64).b(phdrs).b(shdrs).b(split).u(notes as u64).z(align);
         let got = impl_build_id(&img); for t in got.split_whitespace() { r.n(u128::from_str_radix(t, 16).unwrap_or(0xfff)); }
         out.case(l.s(), r.s(), true); out.count(if c64 { "synth.class64" } else { "synth.class32" });
         if img.len() < 3000 { let mut l = Line::new("c14"); l.bytes(&img); out.case(l.s(), &got, true); out.count("synth.model_compared"); }
